@@ -102,9 +102,11 @@ class FaultInjector:
     class Injected(OSError):
         pass
 
-    def __init__(self, n: int | None, kill: bool = False, after: bool = False):
+    def __init__(self, n: int | None, kill: bool = False, after: bool = False, exc: str = 'os'):
         self.n = n
         self.kill = kill
+        self.exc = exc  # 'os': an OSError; 'kbd': KeyboardInterrupt (Ctrl-C); 'exit': SystemExit (e.g. a SIGTERM handler)
+        self.fired = False
         self.after = after  # for index/metadata: fail after the file has been created
         self.count = 0
         self.trace: list[str] = []
@@ -116,6 +118,11 @@ class FaultInjector:
         if self.n is not None and i == self.n:
             if self.kill:
                 os._exit(17)
+            self.fired = True
+            if self.exc == 'kbd':
+                raise KeyboardInterrupt()
+            if self.exc == 'exit':
+                raise SystemExit(3)
             raise FaultInjector.Injected(f'injected fault at step {i} ({what})')
 
     def __enter__(self):
@@ -189,6 +196,10 @@ def do_merge(d: Path, out_name: str, inputs: list[str], fault: FaultInjector | N
         return 'ok'
     except FaultInjector.Injected:
         return 'fault'
+    except (KeyboardInterrupt, SystemExit):
+        if fault is not None and fault.fired:
+            return 'fault'
+        raise
     except ValueError:
         return 'refused'
     except Exception as e:  # noqa: BLE001
